@@ -448,7 +448,8 @@ func gSentencesOf(g *grammar, tier string, seed uint64) ([]gSentence, map[string
 							}
 						}
 					}
-				case thorough && len(child.alts) > 1:
+				// (round 3, seed C08j: every spelling of an integer literal at every integer position, in the quick tier too)
+				case (thorough || child.name == "int_lit") && len(child.alts) > 1:
 					for k, ca := range child.alts {
 						if g.avoid[child.name+"/"+ca.name] {
 							continue // a listed finding: derived under its own production only
